@@ -1,5 +1,6 @@
 """C10 count/pick/support, C11 copy, C13 image/preimage, C14 declare /
 undeclare, C18 structural views."""
+import collections
 import re
 
 from ddsim import gen, ops, seams
@@ -205,6 +206,31 @@ def op_copy_vars(w, ins):
     expect_ok(w, ok, v, 'C11', 'copy_vars')
     if w.snapshot(1).order != w.snapshot(0).order:
         w.fail('wrong_order', f'copy_vars: target order {w.snapshot(1).order}, source {w.snapshot(0).order}', ['C11'])
+
+
+def op_fork(w, ins):
+    """`copy.copy(manager)` (dd.bdd only): the copy replaces M1 when nobody
+    holds M1, and from then on both managers go on working — two managers with
+    a shared past.  The copy has the same nodes and counts, so every handle
+    on M0 is also a handle on the copy."""
+    g = w.mgrs[0]
+    if g.flavor != 'raw' or len(w.mgrs) < 2 or w.slots_of(1):
+        return 'skip'
+    import copy as _cp
+    w.finalize()
+    ok, nb = call(w, _cp.copy, g.raw)
+    expect_ok(w, ok, nb, 'C11', 'copy.copy(manager)')
+    from ddsim.world import Mgr
+    tmp = Mgr(1, 'raw', nb, nb)
+    tmp.term_base = g.term_base      # the manager's own reference to the terminal
+    a, b = w.snapshot(0), w.snapshot(tmp)
+    if a.order != b.order or a.succ != b.succ or a.refs != b.refs:
+        w.fail('wrong_result', 'copy.copy(manager) does not reproduce order, nodes and counts', ['C11'])
+    w.mgrs[1] = tmp
+    for s_ in list(w.slots_of(0)):
+        w.add_slot(1, s_.ref, s_.tt)
+    w.touch()
+    w.stats['fork'] += 1
 
 
 # ---------------------------------------------------------------------------
@@ -483,13 +509,18 @@ def parse_dot(text):
             continue
         me = _EDGE_RE.match(line)
         if me:
-            edges.append((me.group(1), me.group(2), dict(_ATTR_RE.findall(me.group(3)))))
+            edges.append((me.group(1).strip('"'), me.group(2).strip('"'), dict(_ATTR_RE.findall(me.group(3)))))
             continue
         mn = _NODE_RE.match(line)
         if mn:
-            nodes[mn.group(1)] = dict(_ATTR_RE.findall(mn.group(2)))
+            nm = mn.group(1).strip('"')      # DOT identifiers may be quoted or not
+            at = dict(_ATTR_RE.findall(mn.group(2)))
+            if nm in nodes and nm.startswith('ref') and nodes[nm].get('label') != at.get('label'):
+                # one reference node declared with two different labels
+                at['label'] = nodes[nm].get('label', '') + '\x00' + at.get('label', '')
+            nodes[nm] = at
             if cur is not None:
-                cur.append(mn.group(1))
+                cur.append(nm)
     return nodes, edges, groups
 
 
@@ -531,7 +562,7 @@ def op_dump_dot(w, ins):
     # level groups: phantom node "L<i>" labelled with the level, rank=same
     lvl = {}
     for grp in groups:
-        ph = [x for x in grp if x.startswith('"L')]
+        ph = [x for x in grp if x.startswith('L')]
         if len(ph) != 1:
             continue
         lab = nodes[ph[0]].get('label')
@@ -553,7 +584,7 @@ def op_dump_dot(w, ins):
     for a_, b_, at in edges:
         if at.get('style') == 'invis':
             continue
-        if a_.startswith('"ref'):
+        if a_.startswith('ref'):
             ref_edges.append((a_, b_, at))
             continue
         out.setdefault(int(a_), []).append((int(b_), at))
@@ -578,14 +609,23 @@ def op_dump_dot(w, ins):
             w.fail('wrong_result', f'DOT: node {u} labelled with unknown variable {var_of[u]!r}', ['C18'])
         den[u] = T.ite(T.var[k], dh, dl)
     got_roots = {}
+    # (the same root given twice is drawn as one node with two equal edges)
+    kinds = collections.defaultdict(set)
+    for a_, b_, at in ref_edges:
+        kinds[a_].add((b_, at.get('taillabel')))
     for a_, b_, at in ref_edges:
         d = den[int(b_)]
         if at.get('taillabel') == '-1':
             d = T.neg(d)
-        got_roots[nodes[a_].get('label')] = d
+        lab = nodes[a_].get('label')
+        if len(kinds[a_]) != 1 or lab is None or '\x00' in lab:
+            # one drawn reference node must stand for one reference
+            got_roots[lab] = None
+        else:
+            got_roots[lab] = d
     for s, r in zip(roots, rr):
         if got_roots.get(f'@{r}') != s.tt:
-            w.fail('wrong_result', f'DOT: external reference @{r} evaluates to another function', ['C18'])
+            w.fail('wrong_result', f'DOT: external reference @{r} is missing, ambiguous, or evaluates to another function', ['C18'])
     w.stats['dump_' + ext] += 1
 
 
@@ -666,6 +706,7 @@ for _n, _f, _p, _g in [
         ('pick', op_pick, 'C10', gen_pick),
         ('copy', op_copy, 'C11', gen_copy),
         ('copy_vars', op_copy_vars, 'C11', gen_copy_vars),
+        ('fork', op_fork, 'C11', lambda w, r, cfg: dict(op='fork')),
         ('image', op_image, 'C13', gen_image),
         ('declare', op_declare, 'C14', gen_declare),
         ('undeclare', op_undeclare, 'C14', gen_undeclare),
